@@ -41,7 +41,7 @@ def encodeTree (c : Bool) (sup : Option Pos) (p : Pos) (hasRoot : Bool) : Re :=
   | .middle => siteIntermediate c
   | .last =>
     if sup == some .first || sup == some .middle then siteIntermediate c else siteLast c
-  | .only => if hasRoot && sup.isNone then siteOnlyRooted c else siteOnly c
+  | .only => if hasRoot && (sup.isNone || sup == some .first || sup == some .only) then siteOnlyRooted c else siteOnly c
 
 def supOr (sup : Option Pos) (p : Pos) : Option Pos := match sup with | some s => some s | none => some p
 
